@@ -7,8 +7,8 @@
    satisfies the contract, C16_wrap_contract).  CEntity = an entity that is no
    placeholder ([is_cent]).
    Hypotheses of C16_entities / C16_values / C16_idempotent: [uniq (nj l)] — the
-   non-junk entries of the reference / old file have distinct keys and distinct
-   whitespace objects; new_data is a dict (distinct keys).  C16_nothing_else holds
+   non-junk entries of the reference / old file have distinct keys, distinct section
+   names and distinct whitespace objects; new_data is a dict (distinct keys).  C16_nothing_else holds
    for all inputs.
 
    The re-parse clauses ("the output parses without junk", idempotence through the
@@ -145,7 +145,7 @@ Example C16_example_hyps :
   uniq (nj ex_ref) /\ uniq (nj ex_old) /\ NoDup (map fst ex_nd) /\
   wrap_ok (wrap_by_id ex_contents ex_wraps).
 Proof.
-  split; [|split; [|split; [|apply wrap_by_id_ok]]]; try split; cbn;
+  split; [|split; [|split; [|apply wrap_by_id_ok]]]; repeat split; cbn;
     repeat (apply NoDup_cons; [cbn; intuition discriminate|]); apply NoDup_nil.
 Qed.
 
